@@ -2,6 +2,8 @@
 from __future__ import annotations
 
 import ast
+import os
+import re
 import time
 
 import z3
@@ -315,6 +317,14 @@ def oblige(eng, st: State, goal, name: str, kind="property", tags=None, detail="
         status, model, backend, ms, det = "discharged", None, "z3", 0.0, "trivial"
     else:
         status, model, backend, ms, det = smt.prove(list(st.pc) + extra, goal, timeout_ms=CTX.timeout_ms, both=CTX.both)
+    if status == "unknown" and os.environ.get("PYVC_DUMP"):
+        # development aid: the undecided query as SMT-LIB text
+        sv = z3.Solver()
+        for c_ in list(st.pc) + extra:
+            sv.add(c_)
+        sv.add(z3.Not(goal))
+        with open(os.path.join(os.environ["PYVC_DUMP"], re.sub(r"[^A-Za-z0-9_.-]+", "_", name)[:80] + ".smt2"), "w") as f_:
+            f_.write(sv.to_smt2())
     mdl = None
     witness = ""
     if status == "refuted" and model is not None:
@@ -435,6 +445,7 @@ def apply_contract(eng, c: Contract, fv, args, kwargs, st: State):
             s.frames.pop()
             out.append((s, r))
             continue
+        n_out0 = len(out)
         # universally quantified ghost inputs: the caller's variable of the same name if it has one, else arbitrary
         # arguments whose union has a single alternative left on this path (e.g. an Optional already tested against None)
         for pname, pv in list(s.env.f.items()):
@@ -517,6 +528,13 @@ def apply_contract(eng, c: Contract, fv, args, kwargs, st: State):
                 if hk is not None:
                     hk(eng, c, s3)
                 out.append((s3, result))
+        if len(out) == n_out0 and not c.raises.get("__never_returns__") and smt.feasible(pre.pc, full=True):
+            # vacuity guard: the callee's contract, assumed at this call site, contradicts the caller's state on every exit -
+            # everything after the call would be proved vacuously.  (A contract error, or a callee that cannot return here.)
+            eng.obligations.append(Obligation(
+                id=f"{CTX.tags[0] if CTX.tags else '-'}/{CTX.target}/call:{fv.qualname}/vacuity", property=CTX.tags[0] if CTX.tags else "-",
+                kind="auxiliary", status="refuted", backend="z3", goal="the callee's contract is satisfiable at this call site",
+                function=CTX.target, path=" ".join(pre.trace[-12:]), detail="every exit of the assumed contract is infeasible in the caller's state"))
     return out
 
 
@@ -966,7 +984,7 @@ def verify(eng, c: Contract, tags=None, timeout_ms=None, both=False):
     # preconditions
     for cl in c.requires:
         st.assume(eval_clause(eng, st, cl.node))
-    vac_ok = smt.feasible(st.pc)
+    vac_ok = smt.feasible(st.pc, full=True)
     if not vac_ok:
         eng.obligations.append(Obligation(id=f"{CTX.tags[0] if CTX.tags else '-'}/{CTX.target}/vacuity", property=CTX.tags[0] if CTX.tags else "-",
                                           kind="auxiliary", status="refuted", backend="z3", goal="requires is satisfiable",
@@ -981,6 +999,11 @@ def verify(eng, c: Contract, tags=None, timeout_ms=None, both=False):
     for s0 in starts:
         terminals.extend(eng.exec_block(node.body, s0))
     n_ret = n_exc = 0
+    if not terminals and not getattr(c, "never_returns", False) and "__never_returns__" not in c.raises:
+        # vacuity guard: a body none of whose paths reaches an exit generated no exit obligation at all
+        eng.obligations.append(Obligation(id=f"{CTX.tags[0] if CTX.tags else '-'}/{CTX.target}/vacuity-exit", property=CTX.tags[0] if CTX.tags else "-",
+                                          kind="auxiliary", status="refuted", backend="z3", goal="some path reaches an exit of the function",
+                                          function=CTX.target, detail="no feasible path reaches a return or a raise (cut-point rule swallowed every path, or contradictory hints)"))
     for s, o in terminals:
         if isinstance(o, Raised):
             n_exc += 1
